@@ -60,6 +60,53 @@ Theorem C07_dd_survives_if_reaches_cycle :
     In k (map nkey (gnodes (dd_g (trellis_dd g)))).
 Proof. exact dd_survives_if_reaches_cycle. Qed.
 
+(* After the cleanup of a successful unrestricted build with cleaning enabled (no guard of the
+   regenerated chain fires): a detached file node that File.before_delete would queue (VOLATILE: v =
+   None; BUILT/OUTDATED with recorded hash h: v = Some h), that is not an output of an attached
+   optional step, that is on the abstract disk with exactly the recorded content, and that nothing
+   holds (no attached node and no cycle is reachable from it along product and sink edges, i.e. it
+   lies in no self-supporting set; an attached consumer would be such a holder) is absent from the
+   graph and from the disk afterwards. *)
+Theorem C07_orphans_removed :
+  forall c g f n v h,
+    existsb (guard_fires c) finalize_guards = false ->
+    NoDup (map nkey (gnodes g)) ->
+    (forall d, In d (gdeps g) -> exists m, In m (gnodes g) /\ nkey m = snd d) ->
+    In n (gnodes g) -> nkind n = KFILE -> ndet n = true ->
+    is_revert_target g n = false ->
+    bd_value n = Some v -> (v = None \/ v = Some h) ->
+    fs_get f (nlabel n) = Some (FFile h) ->
+    (~ exists S, self_supporting g S /\ In (nkey n) S) ->
+    let r := finalize c (init_state g f) in
+    ~ In (nkey n) (map nkey (gnodes (s_g r))) /\ fs_get (s_fs r) (nlabel n) = None.
+Proof. exact orphans_removed. Qed.
+
+(* Directories. Full statement, NOT proved (validated by the E1 correspondences on real trees and by
+   the oracle): no directory marked for removal is an empty directory when the cleanup ends. *)
+Definition C07_dirs_pruned_when_empty_full : Prop :=
+  forall q f d, In d (qdirs q) ->
+    let r := remove_deletable_files q f in
+    ~ (fs_get (r_fs r) d = Some FDir /\ dir_empty (r_fs r) d = true).
+
+(* Proved part: a marked directory that is an empty directory once the queued files are gone (a
+   directory that held nothing but removed outputs) is removed. The missing case is a directory
+   that only becomes empty through the removal of sub-directories during the walk towards the root. *)
+Theorem C07_dirs_pruned_when_empty_partial :
+  forall q f d, In d (qdirs q) ->
+    let f1 := fst (rdf_files q (sort_desc (dedup (map fst (qfiles q)))) f []) in
+    fs_get f1 d = Some FDir -> dir_empty f1 d = true ->
+    fs_get (r_fs (remove_deletable_files q f)) d = None.
+Proof. exact dirs_pruned_when_empty_partial. Qed.
+
+(* ... and the parent directory of every deleted file node is marked, unless it is the project root
+   or (when the source says so) belongs to an attached static tree. *)
+Theorem C07_deleted_file_parent_marked :
+  forall trees x q, nkind x = KFILE ->
+    let d := normdir (dirname (nlabel x)) in
+    is_dot d || (mark_dir_skips_static_trees && owned_by_tree trees d) = false ->
+    In d (qdirs (before_delete trees x q)).
+Proof. exact before_delete_marks_parent. Qed.
+
 (* Non-vacuity: root -> step s (detached) creates step t creates file o, s has o as amended input
    (a cycle s -> t -> o -> s), plus a detached orphan file x. The cycle survives, x is deleted and
    queued with its recorded hash, its directory is marked. *)
@@ -74,6 +121,6 @@ Example C07_example :
                    [(t, o); (o, s)] in
   let r := workflow_dd g in
   map nkey (gnodes (dd_g r)) = [root; s; t; o] /\ map nkey (dd_deleted r) = [x] /\ dd_err r = false /\
-  qfiles (queue_deleted (dd_deleted r) empty_queue) = [([100; 47; 120], Some 9)] /\
-  qdirs (queue_deleted (dd_deleted r) empty_queue) = [[100]].
+  qfiles (queue_deleted [] (dd_deleted r) empty_queue) = [([100; 47; 120], Some 9)] /\
+  qdirs (queue_deleted [] (dd_deleted r) empty_queue) = [[100]].
 Proof. vm_compute. repeat split; reflexivity. Qed.
